@@ -47,7 +47,7 @@ INDENT = "\n" + ("\n" + " " * 24) * 12
 
 def run(ctx):
     rng = ctx.rng
-    mc = ctx.tlc("P_C18", CFG % ("FALSE", "FALSE", "FALSE", 5 if ctx.quick() else 7), timeout=3000, name="P_C18_repaired")
+    mc = ctx.tlc("P_C18", CFG % ("FALSE", "FALSE", "FALSE", 5 if ctx.quick() else 6), timeout=3000, name="P_C18_repaired")
     mc.require_clean()
     pinned = ctx.tlc("P_C18", CFG % ("TRUE", "FALSE", "FALSE", 4), timeout=600, name="P_C18_pinned")
     # the pinned trim rule (whitespace at BOTH ends or none is removed): '1: ' keeps its colon
